@@ -553,7 +553,9 @@ Section CommitProofs.
     - destruct (run_job' (Some g) j) as [g1|] eqn:E.
       + rewrite (IH _ _ H). unfold run_job in E. destruct j as [[p old] c].
         destruct (job_effective hash_fs (p, old, c)).
-        * eapply apply_hash_nglobs. exact E.
+        * destruct (stale_confirmation rest g p c).
+          -- inversion E. reflexivity.
+          -- eapply apply_hash_nglobs. exact E.
         * inversion E. reflexivity.
       + exfalso. clear -H. induction jobs as [|k jobs IH]; cbn in H; [discriminate|]. apply IH. exact H.
   Qed.
@@ -811,3 +813,20 @@ Section UnderSpec.
       + right. apply in_flat_map. exists r. split; [exact H1|]. rewrite H2. apply filter_In. split; assumption.
   Qed.
 End UnderSpec.
+
+(* ------------------------------------------------------------------------------------------ *)
+(* DELETED_PARENT only reaches paths the graph knows: a path recorded as updated in this very  *)
+(* watch phase (a new match of a pattern, no node, not yet a recorded match) stays in `updated` *)
+(* when a directory above it is moved away afterwards.                                          *)
+(* ------------------------------------------------------------------------------------------ *)
+
+Definition g_stale : gstate unit := mk_g [] [mk_ng 0 [112] true []] tt.       (* one pattern, no matches yet *)
+Definition p_stale : path := [100;49;47;110].                                  (* "d1/n" *)
+Definition d_stale : path := [100;49].                                         (* "d1" *)
+
+Lemma stale_update_survives_deleted_parent :
+  is_prefix (dir_pre d_stale) p_stale = true /\
+  let w := fold_changes (change_is_relevant unit all_match g_stale) (relevant_paths_under unit g_stale)
+                        [mk_item Updated p_stale false; mk_item DeletedParent d_stale false] ws_empty in
+  pmem p_stale (ws_updated w) = true /\ pmem p_stale (ws_deleted w) = false.
+Proof. vm_compute. repeat split; reflexivity. Qed.
